@@ -73,4 +73,10 @@ def run(ctx):
         "1e-6 relative of a surface, overlapping regions (universes.org.json) and degenerate inputs (lead-box.org.json: "
         "coincident duplicate surfaces) are discarded and counted; involute fixtures are skipped",
         "small-scope: design model on 3 small worlds (quarter turn, improper rotation, 3 levels)",
+        "exploration look-ahead: an operation leading to an already discovered protocol state is followed by one more call "
+        "(find_next_step, or cross_boundary before a crossing) on the navigator state IT produced, so that what it left behind "
+        "beyond the protocol state (level-local positions / directions, flags, surface sense) is judged; Copy = a second track "
+        "slot initialised from the track through DetailedInitializer (new direction in the interior, same direction on a "
+        "boundary) which then continues as the track; move_internal(position) inside the reported safety sphere also on the "
+        "fixtures and curved worlds",
     ]
